@@ -1433,8 +1433,18 @@ impl ProtocolState {
                 self.encoder.reset(packet, &encode_context)?;
             }
 
-            let packet = &self.operations.get(&self.current_operation.unwrap()).unwrap().packet;
-
+            let packet =
+                match self.operations.get(&self.current_operation.unwrap()) {
+                    Some(operation) => { &operation.packet }
+                    None => {
+                        // The operation was completed (by an ack timeout, for example) while its packet was only
+                        // partially written.  The rest of that packet is gone, so the byte stream of this connection
+                        // cannot be continued.
+                        error!("[{} ms] service_queue - operation {} was completed while partially encoded", self.elapsed_time_ms, self.current_operation.unwrap());
+                        self.current_operation = None;
+                        return Err(GneissError::new_internal_state_error("current operation completed while partially encoded"));
+                    }
+                };
 
             let encode_result = self.encoder.encode(packet, context.to_socket)?;
             if encode_result == EncodeResult::Complete {
